@@ -1,9 +1,9 @@
 #!/bin/bash
-# tools/round5.sh <Cxx> [slotbase]: confirm and install the round-5 candidates of one property (from /tmp/mut6/out-<Cxx>),
+# tools/round6.sh <Cxx> [slotbase]: confirm and install the round-6 candidates of one property (from /tmp/mut6/out-<Cxx>),
 # then run the quick tier of the property's check (harness as committed) against each of them (scratch worktrees only).
 cd "$(dirname "$0")/.."
 ID="$1"; SB="${2:-20}"
 python3 tools/install_seed.py /tmp/mut6/out-$ID "i$ID" r6 2>&1 | tee -a /tmp/mut6/install-$ID.log
 names=$(ls seeded | grep "^$ID-r6" | tr '\n' ',' | sed 's/,$//')
-[ -n "$names" ] && python3 tools/run_sens.py --seeded --no-suite --slots 1 --slot-base "$SB" --commit 7145292 --only "$names" --out /tmp/mut6/first-$ID.json 2>&1 | tee -a /tmp/mut6/install-$ID.log
+[ -n "$names" ] && python3 tools/run_sens.py --seeded --no-suite --slots 1 --slot-base "$SB" --commit fc3fc5a --only "$names" --out /tmp/mut6/first-$ID.json 2>&1 | tee -a /tmp/mut6/install-$ID.log
 git -C /repo worktree remove --force /tmp/vmut/i$ID/repo 2>/dev/null; rm -rf /tmp/vmut/i$ID
